@@ -169,6 +169,24 @@ func (w *c01World) line(c *Ctx, in string) {
 		c.Emit("req %s %s %s => %s", w.ids(), parts[2], parts[3], w.send(unhx(parts[3])))
 	case "setup": // setup <body>: a request that builds state (registration, link, task); not judged beyond crashing
 		c.Emit("req %s %s %s => %s", w.ids(), parts[1], parts[2], w.send(unhx(parts[2])))
+	case "task": // task <id hex> <n>: the operator queues n tasks for a session (a pivot's tasks travel to its chain's first hop)
+		var id uint32
+		var n int
+		fmt.Sscanf(parts[1], "%x", &id)
+		fmt.Sscanf(parts[2], "%d", &n)
+		out := guardT(5*time.Second, func() string {
+			if a := w.ts.AgentInstance(int(id)); a != nil {
+				for i := 0; i < n; i++ {
+					a.AddJobToQueue(agent.Job{Command: agent.COMMAND_SLEEP, RequestID: 0x6000 + uint32(i), Data: []interface{}{int32(i), int32(0)}})
+				}
+			}
+			return "ok"
+		})
+		if out != "ok" {
+			c.Emit("req %s 0 - => %s", w.ids(), out)
+		} else {
+			c.Emit("%s", in)
+		}
 	case "issue": // issue <id hex> <req>
 		var id, req uint32
 		fmt.Sscanf(parts[1], "%x", &id)
@@ -336,6 +354,36 @@ func runC01(c *Ctx) {
 					w.line(c, fmt.Sprintf("req - %s %s", svc, hx(demonRequest(id, k[0], k[1], []dpkg{p}))))
 				}
 				continue
+			case kind == 13 && len(kids) > 0 && r.Chance(2, 3): // tasks queued for sessions behind pivots (any depth), then check-ins of everybody above
+				kid := gen.Pick(r, kids)
+				if r.Bool() { // one level deeper first: the pivot reports (through its own parent) a connect to a new agent
+					par := parentOf[kid]
+					pk, kk := w.keys[par], w.keys[kid]
+					g := r.U32() | 1
+					gkey, giv := r.Bytes(32), r.Bytes(16)
+					conn := dpkg{cmd: agent.COMMAND_PIVOT, req: r.U32(), body: body(fI(agent.DEMON_PIVOT_SMB_CONNECT), fI(1), fY(initPackage(g, g, gkey, giv, genRegInfo(r))))}
+					relay := demonRequest(kid, kk[0], kk[1], []dpkg{conn})
+					w.line(c, fmt.Sprintf("req - %s %s", svc, hx(demonRequest(par, pk[0], pk[1], []dpkg{{cmd: agent.COMMAND_PIVOT, req: r.U32(), body: body(fI(agent.DEMON_PIVOT_SMB_COMMAND), fY(relay))}}))))
+					w.keys[g] = [2][]byte{gkey, giv}
+					kids = append(kids, g)
+					parentOf[g] = kid
+					kid = g
+					c.Count("pivot.deeper")
+				}
+				w.line(c, fmt.Sprintf("task %08x %d", kid, 1+r.Intn(3)))
+				if r.Chance(1, 3) {
+					w.line(c, fmt.Sprintf("task %08x %d", gen.Pick(r, ids), 1+r.Intn(2)))
+				}
+				c.Count("pivot.task")
+				top := kid
+				for parentOf[top] != 0 {
+					top = parentOf[top]
+					if r.Chance(1, 4) {
+						break
+					}
+				}
+				k := w.keys[top]
+				bodyb = demonRequest(top, k[0], k[1], []dpkg{{cmd: agent.COMMAND_GET_JOB, nobody: true}})
 			case kind < 14 && len(ids) > 0: // pivot traffic: SMB connect with inner registration (valid or not), relayed packages
 				id := gen.Pick(r, ids)
 				k := w.keys[id]
